@@ -16,6 +16,7 @@ from . import ranges
 
 
 _HQ = {}
+_HQ_KEEP = []
 
 
 def has_quant(e):
@@ -25,6 +26,10 @@ def has_quant(e):
             _HQ[k] = True
         else:
             _HQ[k] = any(has_quant(c) for c in e.children())
+        _HQ_KEEP.append(e)       # ids are recycled once a term is freed: keep it alive as long as the entry
+        if len(_HQ_KEEP) > 200000:
+            _HQ.clear()
+            del _HQ_KEEP[:]
     return _HQ[k]
 
 
@@ -149,7 +154,6 @@ class Ctx:
         self.ghost = {}
         self.fresh_n = {}
         ranges.reset_bounds()    # interval facts are per path
-        ranges._MEMO.clear()
         self.qreads = None      # array reads / uninterpreted applications seen while building a quantifier body
         self.sides = None       # definedness side conditions collected while evaluating a logical formula
 
